@@ -23,6 +23,10 @@ DOCS = {
                ('block', 'b2', [('item', '_z', C('3'))])],
     'composite': [('block', 'b1', [('item', '_l', L(C('a'), L(C('b')), T(('k', C('v'))))), ('item', '_t', T(('x y', UNK), ('z', L()))),
                                    ('loop', ['_m', '_n'], [[L(C('1')), C('2')]])])],
+    # the same data names with values in an earlier block, its frame and a later block: what is skipped in one container must
+    # not depend on what another container holds
+    'shared-names': [('block', 'b1', [('loop', ['_a', '_b'], [[C('1'), C('2')]]), ('frame', 'f1', [('loop', ['_a', '_b'], [[C('3'), C('4')]])])]),
+                     ('block', 'b2', [('loop', ['_a', '_b'], [[C('5'), C('6')]]), ('item', '_s', C('z'))])],
     'three-blocks': [('block', 'b1', [('item', '_a', C('1'))]), ('block', 'b2', [('item', '_a', C('2'))]), ('block', 'b3', [('item', '_a', C('3'))])],
 }
 COMMENTED = ('frames', 'loop2x2')
